@@ -242,6 +242,9 @@ func FamilyCrash(tier string) []*Scenario {
 			}
 		}
 	}
+	// a bypassed scope that has every other check group as well: whatever the crash point, nothing of them may run
+	add("chk-plan-bypassed-all", PlanSpec{Bypass: Chk(A(), A()), Pre: Chk(A()), Cont: Chk(A()), Post: Chk(A()), Def: Chk(A()), Blocks: []BlockSpec{{Seqs: okSeqs(1, 1)}}})
+	add("chk-block-bypassed-all", PlanSpec{Def: Chk(A()), Blocks: []BlockSpec{{Bypass: Chk(A(), A()), Pre: Chk(A()), Cont: Chk(A()), Post: Chk(A()), Def: Chk(A()), Seqs: okSeqs(1, 1)}, {Seqs: okSeqs(1, 1)}}})
 	// everything at once
 	add("all-groups", PlanSpec{Bypass: Chk(A(Perm)), Pre: Chk(A()), Cont: Chk(A()), Post: Chk(A()), Def: Chk(A()),
 		Blocks: []BlockSpec{{Bypass: Chk(A(Perm)), Pre: Chk(A()), Cont: Chk(A()), Post: Chk(A()), Def: Chk(A()), Seqs: okSeqs(2, 1), Conc: 2}, {Seqs: okSeqs(1, 1)}}})
